@@ -37,7 +37,7 @@ def main():
     def clean():
         sh("git checkout -- . && git clean -fdq", cwd=wt)
 
-    name0 = "%s-%s" % (prop, os.path.basename(mdir))
+    name0 = "%s-%s" % (prop, os.environ.get("SEED_NAME") or os.path.basename(mdir))
     prev = os.path.join("/verif/seeded", name0, "meta.json")
     recheck = os.environ.get("RECHECK") and os.path.exists(prev) and json.load(open(prev)).get("evaluation", {}).get("confirmed")
     if recheck:
@@ -101,7 +101,7 @@ def main():
     detected = any(isinstance(v, dict) and v["exit"] != 0 for v in results.values())
     report["detected"] = detected
 
-    name = "%s-%s" % (prop, os.path.basename(mdir))
+    name = name0
     dest = os.path.join("/verif/seeded", name)
     os.makedirs(dest, exist_ok=True)
     if not recheck:
